@@ -223,6 +223,60 @@ func runOnceRaw(id int, m *xpath.Machine, failAt int, trace bool) (rr RunResult)
 	return
 }
 
+// runWithOptions: one run on a fresh tree (callback failAt failing, 0 = none) with the context options of the public API set:
+// debug output, validation mode, accessible tree restricted to configuration.  The options are documented as
+// diagnostics / filters; whatever they are, the run must still end in a value or an error, and a failure of the tree must
+// still be the error that is reported.
+func runWithOptions(m *xpath.Machine, failAt int, debug, validate, cfgOnly bool) (o runOutcome, errText string) {
+	defer func() {
+		if r := recover(); r != nil {
+			o.pan = r
+		}
+	}()
+	c := xpath.NewCtxFromCurrent(context.Background(), m, &xpm.Entry{T: &xpm.Tree{FailAt: failAt}}).SetDebug(debug).SetValidation(validate)
+	if cfgOnly {
+		c = c.AccessibleTreeConfigOnly()
+	}
+	res := c.Run()
+	if e := res.GetError(); e != nil {
+		o.hasErr = true
+		errText = e.Error()
+	}
+	_, e1 := res.GetBoolResult()
+	_, e2 := res.GetLiteralResult()
+	_, e3 := res.GetNumResult()
+	o.hasValue = e1 == nil && e2 == nil && e3 == nil
+	if (e1 == nil) != (e2 == nil) || (e2 == nil) != (e3 == nil) {
+		o.pan = "accessors disagree on value-vs-error"
+	}
+	return
+}
+
+func resultText(res *xpath.Result) string {
+	b, e1 := res.GetBoolResult()
+	n, e2 := res.GetNumResult()
+	l, e3 := res.GetLiteralResult()
+	return fmt.Sprintf("err=%v b=%v/%v n=%v/%v s=%q/%v", res.GetError(), b, e1, n, e2, l, e3)
+}
+
+// runLate: the caller's Go context is cancelled inside callback k, which then stays in the tree for a moment
+func runLate(m *xpath.Machine, k int) (lateCalls int, before, after string) {
+	defer func() {
+		if r := recover(); r != nil {
+			before, after = "panic", "panic"
+		}
+	}()
+	gc, cancel := context.WithCancel(context.Background())
+	defer cancel()
+	tree := &xpm.Tree{CancelAt: k, Cancel: cancel, CancelHold: 5 * time.Millisecond}
+	res := xpath.NewCtxFromCurrent(gc, m, &xpm.Entry{T: tree}).Run()
+	tree.Returned.Store(true)
+	before = resultText(res)
+	time.Sleep(20 * time.Millisecond)
+	after = resultText(res)
+	return int(tree.Late.Load()), before, after
+}
+
 // runCancelled: one run whose caller's Go context is cancelled before the run (k = 0) or inside the k-th callback
 func runCancelled(m *xpath.Machine, k int) (o runOutcome) {
 	defer func() {
@@ -311,6 +365,7 @@ func replay(args []string) {
 	faults := fs.Bool("faults", false, "also run every vector with each data-tree callback failing in turn")
 	reverse := fs.Bool("reverse", false, "replay the vectors in reverse order (histories: a result may not depend on what ran before)")
 	results := fs.Bool("results", false, "record the observed result of the first run in every outcome")
+	late := fs.Int("late", 0, "every N-th vector with data-tree requests: cancel the caller's Go context inside a callback and watch the tree and the result after Run has returned")
 	fs.Parse(args)
 	of, _ := os.Create(*out)
 	defer of.Close()
@@ -440,6 +495,19 @@ func replay(args []string) {
 					o.Mism = append(o.Mism, Mism{"history", short(rr), short(r3)})
 				}
 			}
+			// a run is over when Run returns: with the caller's Go context cancelled inside the k-th callback (which stays in the
+			// tree a little longer) no callback may arrive after Run has returned and the result handed out may not change
+			if *late > 0 && len(v.Calls) > 0 && rr.Panic == nil && id%*late == 0 {
+				for k := 1; k <= len(v.Calls) && k <= 3; k++ {
+					n, before, after := runLate(m, k)
+					if n > 0 {
+						o.Mism = append(o.Mism, Mism{"late-call", "no data-tree callback after Run has returned", fmt.Sprintf("%d callbacks after Run returned (context cancelled inside callback %d)", n, k)})
+					}
+					if before != after {
+						o.Mism = append(o.Mism, Mism{"late-result", before, after})
+					}
+				}
+			}
 			// C03: every rendering compiles to the same program and gives the same result
 			for vi, vt := range v.Variants {
 				m2, e2, p2 := compile(xpm.ToReal(vt))
@@ -476,6 +544,33 @@ func replay(args []string) {
 						o.Mism = append(o.Mism, Mism{"fault-error", want, rf.Err})
 					} else if !strings.Contains(rf.BErr, want) {
 						o.Mism = append(o.Mism, Mism{"fault-accessor", want, rf.BErr})
+					}
+				}
+			}
+			if *faults {
+				// every option of the context API, with no fault and with each callback failing in turn
+				for _, opt := range [][3]bool{{true, false, false}, {false, true, false}, {false, false, true}, {true, true, true}} {
+					for k := 0; k <= len(v.Calls); k++ {
+						if nHangs >= maxHangs {
+							break
+						}
+						var co runOutcome
+						var et string
+						kk, oo := k, opt
+						name := fmt.Sprintf("debug=%v validation=%v config-only=%v fault=%d", opt[0], opt[1], opt[2], k)
+						if watchdog(func() { co, et = runWithOptions(m, kk, oo[0], oo[1], oo[2]) }) {
+							o.Mism = append(o.Mism, Mism{"hang", "the run returns", "Run with " + name + " did not return within 30 s"})
+							continue
+						}
+						want := fmt.Sprintf("ENVFAIL-%d", k)
+						switch {
+						case co.pan != nil:
+							o.Mism = append(o.Mism, Mism{"fault-panic", name, fmt.Sprint(co.pan)})
+						case co.hasErr == co.hasValue:
+							o.Mism = append(o.Mism, Mism{"fault-neither", "a value or an error (" + name + ")", fmt.Sprintf("error=%v value=%v", co.hasErr, co.hasValue)})
+						case k > 0 && !strings.Contains(et, want):
+							o.Mism = append(o.Mism, Mism{"fault-error", want + " (" + name + ")", et})
+						}
 					}
 				}
 			}
